@@ -184,6 +184,14 @@ def check(case, ctx):
             outs.append(1000.0 * (k + 1) + np.arange(int(np.prod(shp, dtype=int)), dtype=np.float64).reshape(shp))
         return outs[0] if len(outs) == 1 else tuple(outs)
 
+    # another grid ufunc with other options, applied on the same Grid first: nothing of it may leak into the one under test
+    a0 = axes[0]
+    d0 = gen.dim_name(a0["name"], "center")
+    decoy = as_grid_ufunc(signature="(q:center)->(q:center)", boundary_width={"q": (2, 1)}, boundary="extend", fill_value=-3.0)(lambda a: a[..., 2:-1])
+    try:
+        decoy(grid, xr.DataArray(np.arange(float(a0["n"])), dims=[d0]), axis=[(a0["name"],)])
+    except Exception:  # noqa: BLE001 - only there to leave traces, if any
+        pass
     das = [xr.DataArray(np.asarray(i["values"], dtype=np.float64), dims=i["dims"]) for i in case["inputs"]]
     axis_arg = [tuple(bind[d] for d, _ in arg) for arg in case["sig_in"]]
     call_kw = {}
